@@ -22,7 +22,7 @@ C[PA + 'has_internal_mods_at_index'] = dict(
     params=dict(self='Annotation', index='int'), returns='bool', pure=True, ensures=[('def', 'result == im_has(self, index)')], raises={})
 C[PA + 'add_internal_mod'] = dict(
     params=dict(self='Annotation', index='int', mods='ModList', append='bool'), returns='None', mutates=['self'], trusted=True,
-    bounded_by='add_* stores: bounded/C20.py, bounded/C13.py',
+    bounded_by='add_internal_mod: body proved (replace / append / clear, other positions kept, nothing else) in contracts/stores.py; the modified-residue COUNT clause assumed here follows from it and the counting fold (bounded/C13.py)',
     ensures=[('position-modified', 'im_has(self_final, index)'),
              ('other-positions-kept', 'forall(lambda j: implies(j != index, pos_same(self_final, self, j)))'),
              ('one-more-modified-residue-iff-the-position-was-unmodified',
